@@ -8,7 +8,9 @@ import (
 	"encoding/json"
 	"errors"
 	"fmt"
+	"os"
 	"reflect"
+	"strings"
 	"testing"
 
 	wasmvmtypes "github.com/CosmWasm/wasmvm/types"
@@ -189,27 +191,48 @@ func TestC12(t *testing.T) {
 	}
 
 	// ---------- (1) position messages ----------
+	// Case ids do not depend on VERIF_HIST / VERIF_FOCUS: id = (((owner*nmsgs + message)*nsig + signer)*c12HistMax + history variant),
+	// and the random parameters of a case come from a PRNG derived from (seed, id) - so VERIF_CASE=<id> re-runs
+	// exactly that case whatever budget the run that found it had.
+	const c12HistMax = 64
+	if hist > c12HistMax {
+		hist = c12HistMax
+	}
+	focus := map[string]bool{}
+	for _, h := range strings.Split(os.Getenv("VERIF_FOCUS"), ",") {
+		if h = strings.TrimSpace(h); h != "" {
+			focus[h] = true
+		}
+	}
+	if len(focus) > 0 && only < 0 {
+		tr.p("# focus %s", os.Getenv("VERIF_FOCUS")) // tells the runner that the other handlers were left out on purpose
+	}
 	nmsgs := len(c12Messages(w, w.Owner))
 	nsig := len(views) + 2
 	for oi, v := range views {
 		for mi := 0; mi < nmsgs; mi++ {
+			if len(focus) > 0 && only < 0 && !focus[c12Messages(v, v.Owner)[mi].Handler] {
+				continue // a directed search concentrates on the handlers of the broken table rows
+			}
 			// signer index: 0 = the owner, 1..2 = the other position owners, 3 = an account owning nothing, 4 = fresh funded account
 			for si := 0; si < nsig; si++ {
-				for hv := 0; hv < hist; hv++ {
-					// random parameters are drawn for every case, also for skipped ones
-					third := addrN(100 + r.intn(50))
+				for hv := 0; hv < c12HistMax; hv++ {
+					id := ((oi*nmsgs+mi)*nsig+si)*c12HistMax + hv
+					if only >= 0 && id != only {
+						continue
+					}
+					if only < 0 && hv >= hist {
+						break
+					}
+					cr := newRng(seed()*1000003 + uint64(id))
+					third := addrN(100 + cr.intn(50))
 					hlen := 0
 					if hv > 0 {
-						hlen = 1 + r.intn(3)
+						hlen = 1 + cr.intn(3)
 					}
 					hidx := make([]int, hlen)
 					for i := range hidx {
-						hidx[i] = r.intn(nmsgs)
-					}
-					id := ci
-					ci++
-					if only >= 0 && id != only {
-						continue
+						hidx[i] = cr.intn(nmsgs)
 					}
 					ctx, _ := v.Ctx.CacheContext()
 					signer := v.Owner
@@ -249,11 +272,23 @@ func TestC12(t *testing.T) {
 					coll := sview != nil && si != 0 && c12Collides(m.Msg, sview)
 					tr.p("case %d pos %s %s %d %d %s %s %s %s %d %s %s %s", id, m.Handler, b2s(m.NamesPosition), si, nok, ownerCls, cls, kind, b2s(changed),
 						oi, b2s(sview != nil), b2s(coll), b2s(victimChanged))
+					// for the replay file: the message, the named owner's position ids, the signer's own
+					tr.p("  msg %T %s", m.Msg, m.Msg.String())
+					tr.p("  named-owner %d %s: vault %d locker %d lend %d lendB %d borrow %d (on lend %d) order %d", oi, v.Owner, v.VaultID, v.LockerID, v.LendID, v.BorrowLendID, v.BorrowID, v.BorrowLendID, v.OrderID)
+					if sview != nil && si != 0 {
+						tr.p("  signer %s owns: vault %d locker %d lend %d lendB %d borrow %d order %d", signer, sview.VaultID, sview.LockerID, sview.LendID, sview.BorrowLendID, sview.BorrowID, sview.OrderID)
+					} else if si != 0 {
+						tr.p("  signer %s owns no position", signer)
+					}
+					for _, hi := range hidx {
+						tr.p("  history-of-owner %s", c12Messages(v, v.Owner)[hi].Handler)
+					}
 				}
 			}
 		}
 	}
 
+	ci = len(views) * nmsgs * nsig * c12HistMax
 	// ---------- (2) custom wasm messages ----------
 	messenger := comdexwasm.CustomMessageDecorator(a.LockerKeeper, a.Rewardskeeper, a.AssetKeeper, a.CollectorKeeper, a.LiquidationKeeper,
 		a.AuctionKeeper, a.TokenmintKeeper, a.EsmKeeper, a.VaultKeeper, a.LiquidityKeeper)(nil)
